@@ -149,6 +149,9 @@ func (w *World) applyEvent(ev string) bool {
 			handled, ok = w.applyAdvEvent(p)
 		}
 		if !handled {
+			handled, ok = w.applyUntrustedRaw(p)
+		}
+		if !handled {
 			panic("unknown event " + ev)
 		}
 		return ok
@@ -409,6 +412,9 @@ func (w *World) eventEnabled(ev string) bool {
 		return w.P != nil && w.P.conn != nil && !w.P.conn.IsClosed()
 	case "dup":
 		return w.P != nil && len(w.P.sentLog) > 0
+	case "uh", "uinv", "utx", "ublock", "uaddr", "ugarbage":
+		pc := w.U[untrustedAddrs[0]]
+		return pc != nil && pc.conn != nil && !pc.conn.IsClosed() && !pc.conn.Peer.IsClosed()
 	case "h", "b":
 		return w.P != nil && w.P.conn != nil && !w.P.conn.IsClosed() && !w.P.conn.Peer.IsClosed()
 	case "inv", "tx", "uping":
